@@ -111,10 +111,31 @@ def cls_fixed_triggered_without_start(clause, lines):
     return True
 
 
+def cls_result_from_the_future(clause, lines):
+    """F-C05d: a non-OK result whose execution_end lies in the future of the processing time has given a flexible
+    downtime a trigger_time in the future; until that instant it is not 'triggered', so a further non-OK result
+    passes CanBeTriggered again and DowntimeStart is requested a second time."""
+    if clause != "start_once":
+        return False
+    op, a, obs = parse_line(lines[-1])
+    if op != "R" or obs is None or a[0] == 0:
+        return False
+    adds = adds_of(lines[:-1])
+    total = {}
+    for l in lines:
+        for (ev, i), n in (parse_line(l)[2] or {"evs": {}})["evs"].items():
+            if ev == 1:
+                total[i] = total.get(i, 0) + n
+    again = [i for (ev, i), n in obs["evs"].items() if ev == 1 and total.get(i, 0) > 1]
+    now = a[2]
+    return bool(again) and all(i in adds and adds[i]["fixed"] == 0 and obs["dts"].get(i, 0) > now for i in again)
+
+
 # F-C05a / F-C05b are repaired in /repo (eead572, 40d44b0): their classifiers are kept for the record but no longer
 # registered, so a recurrence is reported as a violation.
 CLASSIFIERS = {
     "c05_fixed_triggered_without_start": cls_fixed_triggered_without_start,
+    "c05_result_from_the_future": cls_result_from_the_future,
 }
 
 
@@ -131,7 +152,7 @@ def classify(clause, lines):
 class C05(Check):
     prop = "C05"
     required_theorems = ["in_downtime_iff", "depth_eq_count", "trigger_write_once", "trigger_write_once_run",
-                         "trigger_only_in_window", "trigger_cascade", "trigger_cascade_deep", "flexible_trigger", "flexible_trigger_exact", "start_once",
+                         "trigger_only_in_window", "trigger_cascade", "trigger_cascade_deep", "flexible_trigger", "flexible_trigger_exact", "start_once", "start_once_future_counterexample",
                          "started_partial", "paused_requests_nothing", "started_counterexample", "end_once", "expired_removed", "owner_protected",
                          "model_trace_meets_spec_partial"]
     technique = ("Lean 4 proof (invariants over the operation sequence) about a hand-written model of lib/icinga/downtime.cpp; correspondence by "
@@ -153,7 +174,7 @@ class C05(Check):
         "execution_end in the future of the processing time are outside the model",
     ]
     assumptions = [
-        "timestamps used by the harness are integers (exact in binary64); check results carry execution_start = execution_end <= now",
+        "timestamps used by the harness are integers (exact in binary64); check results carry execution_start = execution_end <= now, except in one generated case in twelve where some lie up to 6 s in the future (outside the hypothesis WF of the whole-run theorems; what the code does there is F-C05d)",
         "the order in which Checkable::TriggerDowntimes walks the std::set of downtimes does not influence the observation (checked by the diff)",
         "every downtime name is used at most once per case",
     ]
